@@ -282,7 +282,21 @@ type cmap4Iter struct {
 }
 
 func (it *cmap4Iter) Next() bool {
-	return it.pos1 < len(it.data)
+	// skip the entries of a glyph index array equal to 0 (the missing glyph),
+	// which Lookup reports as not mapped
+	for it.pos1 < len(it.data) {
+		entry := it.data[it.pos1]
+		if entry.indexes == nil || entry.indexes[it.pos2] != 0 {
+			return true
+		}
+		if it.pos2 == len(entry.indexes)-1 {
+			it.pos2 = 0
+			it.pos1++
+		} else {
+			it.pos2++
+		}
+	}
+	return false
 }
 
 func (it *cmap4Iter) Char() (r rune, gy GID) {
@@ -689,13 +703,31 @@ func (cm cmap4) RuneRanges(dst [][2]rune) [][2]rune {
 		dst = make([][2]rune, 0, len(cm))
 	}
 	dst = dst[:0]
-	for _, e := range cm {
-		start, end := rune(e.start), rune(e.end)
+	add := func(start, end rune) {
 		if L := len(dst); L != 0 && dst[L-1][1] == start {
 			// grow the previous range
 			dst[L-1][1] = end
 		} else {
 			dst = append(dst, [2]rune{start, end})
+		}
+	}
+	for _, e := range cm {
+		if e.indexes == nil {
+			add(rune(e.start), rune(e.end))
+			continue
+		}
+		// an entry equal to 0 is the missing glyph, which Lookup reports as
+		// not mapped : only add the runs of other entries
+		for i := 0; i < len(e.indexes); i++ {
+			if e.indexes[i] == 0 {
+				continue
+			}
+			j := i
+			for j+1 < len(e.indexes) && e.indexes[j+1] != 0 {
+				j++
+			}
+			add(rune(e.start)+rune(i), rune(e.start)+rune(j))
+			i = j
 		}
 	}
 	return dst
